@@ -5,6 +5,7 @@ import (
 	"go/ast"
 	"go/constant"
 	"go/token"
+	"go/types"
 	"path/filepath"
 	"strings"
 )
@@ -123,6 +124,54 @@ func checkC12(c *Check) {
 		})
 		c.Ob("interp/tl2-block-step-for-every-field", fn, found && early == "", r.pos(ir.Info.Decl.Pos()), fmt.Sprintf("the boundary test `(i+1)%%8 == 0` is a top-level statement of the field loop (%v) and no continue/break/return precedes it in the iteration (%q)", found, early))
 	}
+	// (3c) the nat-argument stack is threaded through element calls (each returns it as its last field left it): inside
+	// a loop it is rebuilt from the frame's own arguments in every iteration before the element call, as the generated
+	// code passes the same nat arguments to every element
+	threaded := 0
+	for _, name := range sortedKeys(r.funcs) {
+		fi := r.funcs[name]
+		if !strings.HasPrefix(name, P) || fi.Decl.Body == nil || (fi.Obj.Name() != "ReadTL1" && fi.Obj.Name() != "WriteTL1") {
+			continue
+		}
+		ir := buildFuncIR(fi, r.co.allFuncs(), r.co.Fset)
+		walkBlock(ir.Body, nil, func(n Node, _ []Guard) {
+			lp, ok := n.(*LoopN)
+			if !ok {
+				return
+			}
+			for i, st := range lp.Body {
+				cn, ok := st.(*CallN)
+				if !ok {
+					continue
+				}
+				callee := cn.Builtin // "dyn:x.elements[*].ReadTL1" for calls through the value interface
+				if cn.Fn != nil {
+					callee = cn.Fn.Name()
+				}
+				if !strings.HasSuffix(callee, "ReadTL1") && !strings.HasSuffix(callee, "WriteTL1") {
+					continue
+				}
+				for _, x := range cn.Args {
+					if !containsStr(cn.Results, x) || x == "buf" {
+						continue
+					}
+					if t, isSlice := typeOfCanon(ir, x).(*types.Slice); !isSlice || !isUint32(t.Elem()) {
+						continue
+					}
+					threaded++
+					rebuilt := false
+					for _, prev := range lp.Body[:i] {
+						if pc, ok := prev.(*CallN); ok && pc.Fn != nil && pc.Fn.Name() == "formatNatArgs" && len(pc.Results) == 1 && pc.Results[0] == x {
+							rebuilt = true
+						}
+					}
+					c.Ob("interp/nat-arguments-rebuilt-per-element", fi.Name()+"/"+x, rebuilt, r.pos(cn.Pos), "the nat-argument stack handed to an element call inside a loop is rebuilt by formatNatArgs earlier in the same iteration")
+				}
+			}
+		})
+	}
+	c.Floor("interp/nat-arguments-rebuilt-per-element", 6)
+	_ = threaded
 	// the generator's struct template computes slots the same way: every `% 8` expression in it is `(e + 1) % 8`, used
 	// either as a shift count of the constant 1 or compared with 0 (type-checked syntax tree; names are irrelevant)
 	if rg := loadRepoFuncs(c, "./internal/puregen/gengo"); rg != nil {
@@ -190,4 +239,14 @@ func checkC12(c *Check) {
 		c.Ob("interp/tl2-object-framing", "KernelValueStruct.ReadTL2", frame, r.pos(ir.Info.Decl.Pos()), "size first, size > input rejected, zero size resets, body cut by the size, block byte, variant index under bit 0 — the framing of the generated object readers (C13)")
 	}
 	c.Floor("interp/primitive-table", 20)
+}
+
+// typeOfCanon: the Go type of a canonical parameter name of the function (nil when it is not a parameter).
+func typeOfCanon(ir *FuncIR, name string) types.Type {
+	for _, p := range ir.Params {
+		if p.Name == name {
+			return p.Var.Type()
+		}
+	}
+	return nil
 }
